@@ -27,7 +27,7 @@ import (
 	"gosym/interp"
 )
 
-const modulePath = "github.com/gopher-fleece/gleece/v2"
+var modulePath = "github.com/gopher-fleece/gleece/v2"
 
 func main() {
 	// the loaded SSA program is a large, long-lived heap; collect rarely
@@ -103,7 +103,8 @@ func discoverHarnesses(harnessRoot, repo, prop string) ([]*pkgHarness, map[strin
 				return true
 			})
 		}
-		if has || prop == "" {
+		// packages that only carry exported shims (no vh_ functions) are always overlaid
+		if has || prop == "" || len(p.Funcs) == 0 {
 			out = append(out, p)
 		}
 		return nil
@@ -207,6 +208,8 @@ func cmdRun(args []string) int {
 	trace := fs.Bool("trace", false, "trace calls")
 	noEvidence := fs.Bool("no-evidence", false, "do not write the evidence file")
 	cpuprof := fs.String("cpuprofile", "", "write a CPU profile")
+	module := fs.String("module", "", "module path of the code under test (default: gleece)")
+	harnessRoot := fs.String("harness-root", "", "harness root directory (default: <verif>/harness)")
 	concModel := fs.String("concrete-model", "", "debug: run the selected harness once, concretely, on this JSON model (or replay file) inside the engine")
 	fs.Parse(args)
 	if *cpuprof != "" {
@@ -217,6 +220,13 @@ func cmdRun(args []string) int {
 	if *prop == "" {
 		fmt.Fprintln(os.Stderr, "--property required")
 		return 2
+	}
+	if *module != "" {
+		modulePath = *module
+	}
+	interp.ExtraInitPrefixes = append(interp.ExtraInitPrefixes, modulePath)
+	if *harnessRoot == "" {
+		*harnessRoot = filepath.Join(*verif, "harness")
 	}
 	if t := os.Getenv("VERIF_TIER"); t != "" && *tier == "" {
 		*tier = t
@@ -235,7 +245,7 @@ func cmdRun(args []string) int {
 	}
 	defer os.RemoveAll(scratch)
 
-	hs, coverSrc, err := discoverHarnesses(filepath.Join(*verif, "harness"), *repo, *prop)
+	hs, coverSrc, err := discoverHarnesses(*harnessRoot, *repo, *prop)
 	if err != nil || len(hs) == 0 {
 		fmt.Fprintf(os.Stderr, "no harnesses for %s: %v\n", *prop, err)
 		return 2
@@ -424,7 +434,7 @@ func cmdRun(args []string) int {
 				rp := filepath.Join(*verif, "out", "replay", fmt.Sprintf("%s-%s-%d.json", *prop, rr.name, nReplayFile))
 				os.MkdirAll(filepath.Dir(rp), 0o755)
 				rb, _ := json.MarshalIndent(map[string]any{"property": *prop, "package": h.ImportPath, "harness": rr.name, "label": v.Label, "kind": v.Kind,
-					"msg": v.Msg, "model": v.Model, "native_status": o.Status, "native_msg": o.Msg, "native_events": o.Events, "region": v.Known}, "", " ")
+					"msg": v.Msg, "model": v.Model, "module": modulePath, "harness_root": *harnessRoot, "native_status": o.Status, "native_msg": o.Msg, "native_events": o.Events, "region": v.Known}, "", " ")
 				os.WriteFile(rp, rb, 0o644)
 				fmt.Printf("VIOLATION property=%s replay=%s\n", *prop, rp)
 				fmt.Printf("  harness=%s label=%s kind=%s %s model=%s\n", rr.name, v.Label, v.Kind, v.Msg, modelString(v.Model))
@@ -655,7 +665,15 @@ func cmdReplay(args []string) int {
 	repo := fs.String("repo", "/repo", "repository under test")
 	verif := fs.String("verif", "/verif", "verification directory")
 	file := fs.String("file", "", "replay file written by a failing check")
+	module := fs.String("module", "", "module path of the code under test")
+	harnessRoot := fs.String("harness-root", "", "harness root directory")
 	fs.Parse(args)
+	if *module != "" {
+		modulePath = *module
+	}
+	if *harnessRoot == "" {
+		*harnessRoot = filepath.Join(*verif, "harness")
+	}
 	b, err := os.ReadFile(*file)
 	if err != nil {
 		fmt.Fprintln(os.Stderr, err)
@@ -675,7 +693,7 @@ func cmdReplay(args []string) int {
 	}
 	scratch, _ := os.MkdirTemp("", "gosym-replay-")
 	defer os.RemoveAll(scratch)
-	hs, _, err := discoverHarnesses(filepath.Join(*verif, "harness"), *repo, rf.Property)
+	hs, _, err := discoverHarnesses(*harnessRoot, *repo, rf.Property)
 	if err != nil {
 		fmt.Fprintln(os.Stderr, err)
 		return 2
